@@ -45,6 +45,7 @@ const (
 	sharpByte    = '#'
 	charSlash    = '/'
 	charDone     = 'C'
+	charFirst    = 'f'
 	vectorByte   = 'V'
 	binaryByte   = 'b'
 	octByte      = 'o'
@@ -167,6 +168,19 @@ const (
 		"................................" + // 0xa0
 		"................................" + // 0xc0
 		"................................#" //  0xe0
+
+	// The byte that follows #\ is part of the character whatever it is unless
+	// it is whitespace.
+	//   0123456789abcdef0123456789abcdef
+	charFirstMode = "" +
+		"fffffffffCCffCffffffffffffffffff" + // 0x00
+		"Cfffffffffffffffffffffffffffffff" + // 0x20
+		"ffffffffffffffffffffffffffffffff" + // 0x40
+		"ffffffffffffffffffffffffffffffff" + // 0x60
+		"ffffffffffffffffffffffffffffffff" + // 0x80
+		"ffffffffffffffffffffffffffffffff" + // 0xa0
+		"ffffffffffffffffffffffffffffffff" + // 0xc0
+		"fffffffffffffffffffffffffffffffff" //  0xe0
 
 	//   0123456789abcdef0123456789abcdef
 	charMode = "" +
@@ -673,6 +687,8 @@ func (r *reader) read(src []byte) {
 			r.mode = sharpMode
 		case charSlash:
 			r.tokenStart = r.pos + 1
+			r.mode = charFirstMode
+		case charFirst:
 			r.mode = charMode
 		case charDone:
 			r.pushChar(src)
@@ -791,7 +807,7 @@ func (r *reader) read(src []byte) {
 	r.pos++
 	if r.more {
 		switch r.mode {
-		case tokenMode, charMode, intMode, bitVectorMode:
+		case tokenMode, charFirstMode, charMode, intMode, bitVectorMode:
 			r.carry = append(r.carry, src[r.tokenStart:r.pos]...)
 		case stringMode, symbolMode:
 			if len(r.buf) == 0 {
@@ -810,7 +826,7 @@ func (r *reader) read(src []byte) {
 			r.raise("escaped character not terminated")
 		case symbolMode:
 			r.raise("|symbol| not terminated")
-		case charMode:
+		case charFirstMode, charMode:
 			r.pushChar(src)
 		case intMode:
 			r.pushInteger(src)
@@ -1060,7 +1076,10 @@ const hexByteValues = "" +
 	"................................" //   0xe0
 
 func (r *reader) pushChar(src []byte) {
-	var c Character
+	var (
+		c   Character
+		nul bool
+	)
 	token := r.makeToken(src)
 	cnt := len(token)
 	switch cnt {
@@ -1083,6 +1102,8 @@ func (r *reader) pushChar(src []byte) {
 			}
 			if rn <= unicode.MaxRune {
 				c = Character(rn)
+				// The null character is written as #\u0000.
+				nul = rn == 0 && 4 < cnt
 			}
 			break
 		}
@@ -1090,7 +1111,7 @@ func (r *reader) pushChar(src []byte) {
 			c = Character(rn)
 		}
 	}
-	if c == 0 {
+	if c == 0 && !nul {
 		r.raise(`'#\%s' is not a valid character`, token)
 	}
 	r.push(c)
